@@ -3,7 +3,7 @@ the records of the hand models (the only hand-written part of the translator tie
 import ast
 import os
 
-from .translate import Unit, QUnit, find_function, TranslationError
+from .translate import Unit, QUnit, QListUnit, find_function, TranslationError
 
 
 def gen_standardiser(repo):
@@ -128,7 +128,41 @@ def gen_guard(repo):
             "Definition exclusive_call_ir : list gstmt :=\n  %s.\n" % block(body))
 
 
-UNITS = {"Gen_standardiser.v": gen_standardiser, "Gen_controllers.v": gen_controllers, "Gen_guard.v": gen_guard}
+def gen_composite(repo):
+    """WeightedComposite and UniformComposite: demand getter/setter, supply, utilisation, allocation,
+    _total_weight, _undefined_fitness"""
+    out = ["(* GENERATED on every run by py2coq from src/cobald/composite/{weighted,uniform}.py -- do not edit *)",
+           "From Coq Require Import ZArith QArith List Bool.",
+           "From Cobald Require Import kit.QKit model.Composite.",
+           "Open Scope Q_scope.", "",
+           "Definition W_demand (st : comp) (v : Q) : comp := mkComp (ckind st) v (cchildren st).",
+           "Definition W_children (st : comp) (cs : list child) : comp := mkComp (ckind st) (cdemand st) cs.", ""]
+    fields = {"supply": "c_supply", "utilisation": "c_util", "allocation": "c_alloc", "demand": "c_demand"}
+    for fname, cls, pre, extra in (("weighted.py", "WeightedComposite", "gen_w_", "(w : wattr)"),
+                                   ("uniform.py", "UniformComposite", "gen_u_", "")):
+        with open(os.path.join(repo, "src", "cobald", "composite", fname)) as fh:
+            tree = ast.parse(fh.read())
+        wa = " w" if extra else ""
+        u = QListUnit(children="(cchildren st)", child_fields=fields, weight_attr="self._weight",
+                      reads={"self._demand": "(cdemand st)", "self.supply": "(%ssupply%s st)" % (pre, wa),
+                             "self._total_weight": "(%stotal_weight%s st)" % (pre, wa)},
+                      writes={"self._demand": "W_demand"},
+                      funcs={"self._undefined_fitness": ("(%sundefined_fitness%s st)" % (pre, wa), True)},
+                      state_type="comp")
+        order = [("supply", "property", "value")]
+        if extra:
+            order += [("_total_weight", "property", "value"), ("_undefined_fitness", None, "value")]
+        order += [("utilisation", "property", "value"), ("allocation", "property", "value"),
+                  ("demand", "property", "value"), ("demand", "demand.setter", "setter")]
+        for name, deco, kind in order:
+            fn = find_function(tree, name, cls=cls, decorator=deco)
+            coq = pre + name.lstrip("_") + ("_set" if kind == "setter" else "_get" if name == "demand" else "")
+            out.append(u.function(fn, coq, kind, True, extra_params=extra))
+    return "\n".join(out)
+
+
+UNITS = {"Gen_standardiser.v": gen_standardiser, "Gen_controllers.v": gen_controllers, "Gen_guard.v": gen_guard,
+         "Gen_composite.v": gen_composite}
 
 
 def regen(repo, gendir, names=None):
